@@ -60,6 +60,11 @@ def handlers : List (String × Handler) := [
     | [refn, s, skipHG] =>
       enc (addHydrogens (names refn) (fun n => decBool skipHG && n = str "HG") (fun _ => true) (names s))
     | _ => str "bad-op"),
+  ("atoms.his", fun a => match a with
+    | [s, hip, d1, a1, d2, a2] =>
+      let r := hisSetState (decBool hip) (decBool d1) (decBool a1) (decBool d2) (decBool a2) (names s)
+      enc r ++ ['|'] ++ (match hisName r with | some n => hex n | none => str "TypeError")
+    | _ => str "bad-op"),
   ("atoms.cleanup", fun a => match a with
     | [s, f1, f2] => enc (cleanup (names s) (unhex f1) (unhex f2))
     | _ => str "bad-op")
